@@ -1048,21 +1048,28 @@ class TemplateModel(object):
         _, n_templates_loc = tf.data.shape
         ns = len(spike_ids)
 
+        # Initialize the output array.
+        template_features = np.empty((ns, n_templates_loc), dtype=tf.data.dtype)
+        template_features[:] = np.nan
+
         if tf.rows is not None:
-            spike_ids = np.intersect1d(spike_ids, tf.rows)
+            s = np.intersect1d(spike_ids, tf.rows)
             # Relative indices of the spikes in the self.features_spike_ids
             # array, necessary to load features from all_features which only
             # contains the subset of the spikes.
-            rows = _index_of(spike_ids, tf.rows)
+            rows = _index_of(s, tf.rows)
+            # Relative indices of the non-null rows in the output array.
+            rows_out = _index_of(s, spike_ids)
         else:
             rows = spike_ids
-        template_features = tf.data[rows]
+            rows_out = slice(None, None, None)
+        template_features[rows_out, ...] = tf.data[rows]
 
         if tf.cols is not None:
             assert tf.cols.shape[1] == n_templates_loc
             cols = tf.cols[self.spike_templates[spike_ids]]
         else:
-            cols = np.tile(np.arange(n_templates_loc), (len(spike_ids), 1))
+            cols = np.tile(np.arange(n_templates_loc), (ns, 1))
         template_features = from_sparse(template_features, cols, np.arange(self.n_templates))
 
         assert template_features.shape[0] == ns
